@@ -60,8 +60,8 @@ func (s *sim) runOps() error {
 		step := fmt.Sprintf("step %d (%s)", i, op.Kind)
 		a := s.nodes[((op.N%n)+n)%n]
 		switch op.Kind {
-		case "tx":
-			if err := s.localTx(a, op.Subs, i); err != nil {
+		case "tx", "txfail":
+			if err := s.localTx(a, op.Subs, i, op.Kind == "txfail"); err != nil {
 				return err
 			}
 		case "inject":
@@ -141,7 +141,7 @@ func (s *sim) runOps() error {
 	return nil
 }
 
-var phaseOf = map[string]string{"tx": "local-write", "inject": "gossip", "gossip": "gossip", "redeliver": "gossip", "fb": "feedback",
+var phaseOf = map[string]string{"txfail": "local-write", "tx": "local-write", "inject": "gossip", "gossip": "gossip", "redeliver": "gossip", "fb": "feedback",
 	"stop": "stop", "start": "recovery", "restart": "recovery", "partition": "idle", "heal": "idle", "sub": "idle"}
 
 func (s *sim) healAll() {
